@@ -89,6 +89,7 @@ type Ctx struct {
 	pfCalls     []pfCall
 	PFLearned   map[int][]string // ParseFloat facts learned by CEGAR (persist across paths)
 	Asserts     int64
+	Refuted     int64
 	parked      int
 }
 
